@@ -55,6 +55,7 @@ import (
 	"github.com/tikv/client-go/v2/config/retry"
 	tikverr "github.com/tikv/client-go/v2/error"
 	"github.com/tikv/client-go/v2/internal/logutil"
+	"github.com/tikv/client-go/v2/internal/simhook"
 	"github.com/tikv/client-go/v2/metrics"
 	"github.com/tikv/client-go/v2/tikvrpc"
 	"github.com/tikv/client-go/v2/util"
@@ -909,6 +910,15 @@ func (s *batchCommandsStream) recv() (resp *tikvpb.BatchCommandsResponse, err er
 
 // recreate creates a new BatchCommands stream. The conn should be ready for work.
 func (s *batchCommandsStream) recreate(conn *grpc.ClientConn) error {
+	if newStream := verifNewBatchStreamHook(); newStream != nil {
+		streamClient, err := newStream(conn, s.forwardedHost, s.connIdx)
+		if err != nil {
+			return errors.WithStack(err)
+		}
+		s.Tikv_BatchCommandsClient = streamClient
+		s.maxRespReqID.Store(0)
+		return nil
+	}
 	tikvClient := tikvpb.NewTikvClient(conn)
 	ctx := context.TODO()
 	if s.forwardedHost != "" {
@@ -1057,6 +1067,7 @@ func (c *batchCommandsClient) failPendingRequests(err error, forwardedHost strin
 		id, _ := key.(uint64)
 		entry, _ := value.(*batchCommandsEntry)
 		if entry.forwardedHost == forwardedHost {
+			simhook.Yield("batch.failPending")
 			c.failRequest(err, id, entry)
 		}
 		return true
@@ -1095,6 +1106,9 @@ func (c *batchCommandsClient) failRequest(err error, requestID uint64, entry *ba
 }
 
 func (c *batchCommandsClient) waitConnReady() (err error) {
+	if wait := verifWaitConnReadyHook(); wait != nil {
+		return wait(c.conn, c.dialTimeout)
+	}
 	state := c.conn.GetState()
 	if state == connectivity.Ready {
 		return
@@ -1246,6 +1260,7 @@ func (c *batchCommandsClient) batchRecvLoop(cfg config.TiKVClient, tikvTransport
 			if c.isStopped() {
 				return
 			}
+			simhook.Yield("batch.recv.error")
 			logger.Debug("batchRecvLoop fails when receiving, needs to reconnect", zap.Error(err))
 
 			now := time.Now()
@@ -1284,6 +1299,7 @@ func (c *batchCommandsClient) batchRecvLoop(cfg config.TiKVClient, tikvTransport
 				)
 				continue
 			}
+			simhook.Yield("batch.recv.deliver")
 			completedRespCount.Inc()
 			entry := value.(*batchCommandsEntry)
 			batchState := entry.batchState.Load()
@@ -1348,6 +1364,7 @@ func (c *batchCommandsClient) recreateStreamingClient(err error, streamClient *b
 	// blocks other streams trying to recreate.
 	c.lockForRecreate()
 	defer c.unlockForRecreate()
+	simhook.Yield("batch.recreate.locked")
 
 	// Each batchCommandsStream has a batchRecvLoop. There is only one stream waiting for
 	// the connection ready in every epoch to prevent the connection from reconnecting
@@ -1474,6 +1491,7 @@ func sendBatchRequest(
 	case <-timer.C:
 		return nil, errors.WithMessage(context.DeadlineExceeded, "wait sendLoop")
 	}
+	simhook.Yield("batch.call.enqueued")
 
 	select {
 	case res, ok := <-entry.res:
